@@ -651,6 +651,31 @@ def o_alias(ctx, case):
         after = _answers(lt, ts, [], [0.25])
         if repr(before) != repr(after):
             return 'editing the Livetime of the data subset for window %r changed the original Livetime on %r' % (tuple(w), ivs)
+    # the array handed IN stays the caller's: overwriting it after construction / after the setter must not change the answers
+    # (any memory layout; a read-only input cannot be overwritten and is skipped)
+    from skyllh.core.livetime import Livetime
+    for via_setter in (False, True):
+        arr = mk_array(ivs)
+        if not arr.flags.writeable:
+            continue
+        if via_setter:
+            lt = Livetime(np.array([[-1e9, -1e9 + 1.0]], dtype=np.float64))
+            lt.uptime_mjd_intervals_arr = arr
+        else:
+            lt = Livetime(arr)
+        before = _answers(lt, ts, wins, [0.25])
+        base = arr.base if arr.base is not None else arr
+        try:
+            arr[...] = arr * 3.0 + 7.0
+            if isinstance(base, np.ndarray) and base is not arr and base.flags.writeable:
+                base[...] = np.where(np.isnan(base), base, base * 3.0 + 7.0)
+        except ValueError:
+            continue
+        after = _answers(lt, ts, wins, [0.25])
+        if repr(before) != repr(after):
+            return ('overwriting the interval array in place after it was handed to %s changed the answers of the Livetime on %r '
+                    '(layout %d)' % ('the uptime_mjd_intervals_arr setter' if via_setter else 'the constructor', ivs, layout_of(ivs)))
+        ctx.count('alias:input-overwritten')
     return None
 
 
